@@ -523,6 +523,9 @@ func (vc *VC) heap(st *State, name string) string {
 	if t, ok := st.heaps[name]; ok {
 		return t
 	}
+	if name == "" || vc.heapSort[name] == "" {
+		specFail("internal: heap %q has no sort (expression reads memory of a type the engine has not seen)", name)
+	}
 	n := fmt.Sprintf("%s@e%d", mangle(name), st.epoch)
 	decl := fmt.Sprintf("(declare-const %s %s)", n, vc.heapSort[name])
 	found := false
